@@ -2,6 +2,7 @@
  * no libstdc++ is involved, so MSan reports concern the library only.  usage: replay_c file... */
 #define _GNU_SOURCE
 #include "assemblyline.h"
+#include <errno.h>
 #include <stdio.h>
 #include <stdlib.h>
 #include <string.h>
@@ -25,6 +26,7 @@ static int one(const unsigned char *data, size_t size) {
   if (start > limit) start = limit; /* offsets are documented for 0..n only */
   asm_set_offset(a, start);
   int rc, cnt = 0;
+  { static const int E[] = {0, EINTR, ERANGE, ENOMEM, EAGAIN, EINVAL, EBADF, EIO}; errno = E[(data[2] >> 4) & 7]; }
   if (entry == 0 || entry == 2) rc = asm_assemble_str(a, text); else rc = asm_assemble_string_counting_chunks(a, text, (int)chunk, &cnt);
   if (twice) { int rc2 = (entry & 1) ? asm_assemble_string_counting_chunks(a, text, (int)chunk, &cnt) : asm_assemble_str(a, text); if (rc2) rc = rc2; }
   int off = asm_get_offset(a);
